@@ -1,8 +1,8 @@
 SPECIFICATION Spec
 CONSTANTS
-  Elems = {1, 2}
+  Elems = {1}
   Workers = {1, 2}
   MaxT = 1
-  MaxSizes = {0, 1}
+  MaxSizes = {0}
   Variant = "broadcast_if_empty"
 INVARIANTS TypeOK AtMostOnce NeverEarly CancelHonoured CancelRemoves QuietDelivered QuietShutdown
